@@ -105,8 +105,8 @@ func natErrorsNew(c *callCtx) []cont {
 
 func mkFreshErr(c *callCtx, hint string) *Term {
 	e := Fresh(hint, SErr)
-	c.st.assume(Eq(e, recast(c.st.alloc, SErr)))
-	c.st.alloc = Add(c.st.alloc, IntLit(1, SRef))
+	c.st.assume(Ge(e, recast(c.st.alloc, SErr)))
+	c.st.alloc = Add(recast(e, SRef), IntLit(1, SRef))
 	c.st.assume(Gt(e, IntLit(0, SErr)))
 	return e
 }
@@ -145,8 +145,11 @@ func natErrorf(c *callCtx) []cont {
 		ai++
 	}
 	parts := []*Term{Eq(t, e)}
-	for _, w := range wrapped {
+	for i, w := range wrapped {
 		parts = append(parts, errIsT(w, t))
+		if i == 0 {
+			c.st.assume(Eq(App("unwrap1", SErr, e), w))
+		}
 	}
 	c.st.assume(Forall([]*Term{t}, Eq(errIsT(e, t), Or(parts...))))
 	return c.ret(scalar(e, c.resultType()))
